@@ -686,7 +686,7 @@ fn part2(tier: Tier) -> (Stats, Value) {
     // (proto, sequence number (index) of the packet at the start cursor, depth)
     let mut plan: Vec<(&'static str, SrtpProfile, u64, usize)> = vec![];
     for profile in PROFILES {
-        let d = tier.pick(5usize, 7usize);
+        let d = tier.pick(5usize, 6usize); // depth 7 (1.05e8 histories per profile, each storm letter 40 datagrams) does not finish within an hour
         // RTP near the 2^16 wrap (cursor+2 is the first packet of roc 1) and far from it
         plan.push(("rtp", profile, 65534, d));
         plan.push(("rtp", profile, 1000, tier.pick(5usize, 6usize)));
